@@ -492,6 +492,10 @@ impl Check for C19 {
     fn needs_binary(&self) -> bool {
         true
     }
+    fn fuzz_families(&self, _tier: Tier) -> Vec<(&'static str, u64)> {
+        // libFuzzer runs per job (16 jobs), sized from the measured speed of the instrumented build
+        vec![("roundtrip", 100000)]
+    }
     fn families(&self, tier: Tier) -> Vec<Family<'_>> {
         let max_len = tier.pick(5, 7);
         let total = total_strings(max_len) * 3;
